@@ -5,6 +5,7 @@ import (
 	"fmt"
 	"math/rand"
 	"os"
+	"sort"
 	"sync"
 	"sync/atomic"
 
@@ -224,10 +225,17 @@ func pairsCmd(args []string) error {
 	var evals, mism, pairsN, aborted int64
 	var dedup sync.Map
 	var emitted int64
-	maxEvents := int64(8000)
+	perStratum := 60 // witnesses kept per class of deviation (the explain pass evaluates the L2 transcription on each)
 	if nconf >= 10 {
-		maxEvents = 60000
+		perStratum = 400
 	}
+	type reservoir struct {
+		n     int
+		items []obj
+		rng   *rand.Rand
+	}
+	reservoirs := map[string]*reservoir{}
+	var resMu sync.Mutex
 	var wg sync.WaitGroup
 	rows := make(chan []byte, 64)
 	for w := 0; w < 16; w++ {
@@ -248,8 +256,8 @@ func pairsCmd(args []string) error {
 				for bi, code := range codes {
 					B0 := shapes[bi]
 					// sampling applies to the receivers with many known (and costly to explain) deviations only:
-					// polygon receivers, and line receivers against lines / rectangles / polygons
-					costly := A0.Kind == "poly" || (A0.Kind == "line" && B0.Kind != "pt")
+					// polygon receivers, and line receivers against lines / polygons
+					costly := A0.Kind == "poly" || (A0.Kind == "line" && (B0.Kind == "line" || B0.Kind == "poly"))
 					if costly && stride > 1 && (bi+ai+seed)%stride != 0 {
 						continue
 					}
@@ -342,14 +350,30 @@ func pairsCmd(args []string) error {
 						if _, dup := dedup.LoadOrStore(key, true); dup {
 							continue
 						}
-						if atomic.AddInt64(&emitted, 1) > maxEvents {
-							continue
-						}
+						atomic.AddInt64(&emitted, 1)
 						runaway := containsStr(r.out, "line.go:ContainsLine")
-						ev.Emit(obj{"op": r.call.op, "recv": recv, "A": json.RawMessage(aj), "B": json.RawMessage(bj), "got": r.got, "exp": r.exp, "out": r.out, "runaway": runaway,
+						e := obj{"op": r.call.op, "recv": recv, "A": json.RawMessage(aj), "B": json.RawMessage(bj), "got": r.got, "exp": r.exp, "out": r.out, "runaway": runaway,
 							"A0": A0.D4(r.g).JSON(), "B0": B0.D4(r.g).JSON(), "uniform": uniform,
 							"api": r.call.name, "d4": r.g, "encA": r.ea.String(), "encB": r.eb.String(), "index": fmt.Sprintf("%v/%d", r.opts.Kind, r.opts.MinPoints),
-							"map": r.mp.Name, "moved": r.moved, "baseA": ai, "baseB": bi + 1, "src": "replay"})
+							"map": r.mp.Name, "moved": r.moved, "baseA": ai, "baseB": bi + 1, "src": "replay"}
+						// stratified reservoir sampling: every class of deviation keeps up to perStratum witnesses
+						degB := B0.Kind == "rect" && (B0.Min[0] == B0.Max[0] || B0.Min[1] == B0.Max[1])
+						degA := A0.Kind == "rect" && (A0.Min[0] == A0.Max[0] || A0.Min[1] == A0.Max[1])
+						stratum := fmt.Sprint(r.call.op, A0.Kind, B0.Kind, len(A0.Holes), len(B0.Holes), A0.NumPoints(), B0.NumPoints(), degA, degB,
+							r.exp, r.got, r.out != "ok", uniform, r.call.name, r.ea.Sub > 0)
+						resMu.Lock()
+						rv := reservoirs[stratum]
+						if rv == nil {
+							rv = &reservoir{rng: rand.New(rand.NewSource(int64(seed) + int64(len(reservoirs))))}
+							reservoirs[stratum] = rv
+						}
+						rv.n++
+						if len(rv.items) < perStratum {
+							rv.items = append(rv.items, e)
+						} else if j := rv.rng.Intn(rv.n); j < perStratum {
+							rv.items[j] = e
+						}
+						resMu.Unlock()
 					}
 				}
 			}
@@ -363,8 +387,18 @@ func pairsCmd(args []string) error {
 	}
 	close(rows)
 	wg.Wait()
+	strata := make([]string, 0, len(reservoirs))
+	for k := range reservoirs {
+		strata = append(strata, k)
+	}
+	sort.Strings(strata)
+	for _, k := range strata {
+		for _, e := range reservoirs[k].items {
+			ev.Emit(e)
+		}
+	}
 	printJSON(obj{"shapes": len(shapes), "pairs": pairsN, "evaluations": evals, "mismatching_calls": mism, "distinct_mismatches": emitted,
-		"events": ev.N, "aborted_calls": aborted, "event_cap_hit": emitted > maxEvents})
+		"events": ev.N, "aborted_calls": aborted, "strata": len(strata), "per_stratum": perStratum, "event_cap_hit": int(emitted) > ev.N})
 	_ = os.Stdout
 	return nil
 }
